@@ -204,6 +204,10 @@ fn run_once(p: &Params, prefix: Vec<usize>, random: Option<u64>) -> Outcome {
                 let visible = (ev.f[2] as u32).wrapping_sub(ev.f[1] as u32);
                 trace.push(json!({"ev": "PollBegin", "th": th, "a": visible, "b": 0}));
             }
+            "CqReload" if th == 0 && poller_active => {
+                let visible = (ev.f[2] as u32).wrapping_sub(ev.f[1] as u32);
+                trace.push(json!({"ev": "Reload", "th": th, "a": visible, "b": 0}));
+            }
             "SetPolling" if th == 0 && poller_active => trace.push(json!({"ev": "SetPolling", "th": th, "a": ev.f[1], "b": ev.f[2]})),
             "Wake" => trace.push(json!({"ev": "Fetch", "th": th, "a": ev.f[1], "b": 0})),
             // The run was ended while this call was blocked: it never returned.
